@@ -256,4 +256,88 @@ example : findDivisorDecimals (2 ^ 128 - 1) = 0 ∧ findDivisorDecimals (2 ^ 128
     findDivisorDecimals (2 ^ 192 - 1) = 20 := by decide
 example : pythValueToDecimal 6000012345678 (-8) 8 2 = .ok ⟨6000012, 10⟩ := by decide
 
+/-! ### Non-vacuity added by the audit (B6): the theorems instantiated on concrete inputs -/
+-- `tryFromPrice_eq` / `overflow_iff`: supported settings, truncating branch `d > t`, `q < d`
+example : tryFromPrice 177347 10 5 9 = .ok ⟨17734, 6⟩ :=
+  (tryFromPrice_eq (p := 177347) (d := 10) (t := 5) (q := 9) (by decide) (by decide) (by decide) (by decide)).trans
+    (by decide)
+example : 2 ^ 32 ≤ exactValue (2 ^ 128 - 1) 0 0 :=
+  (overflow_iff (p := 2 ^ 128 - 1) (d := 0) (t := 20) (q := 0) (by decide) (by decide) (by decide) (by decide)).1
+    (by decide)
+-- `tryFromPrice_spec`, `value_floor`, `unit_price_le_exact` on a conversion that really truncates
+-- (177347·10^-10 at 9 decimals is 17734.7 steps): strict on both sides
+example : (17734 : Nat) = exactValue 177347 10 9 ∧ (6 : Nat) = 20 - 5 - 9 :=
+  have h := tryFromPrice_spec (p := 177347) (d := 10) (t := 5) (q := 9) (r := ⟨17734, 6⟩) (by decide)
+  ⟨h.2.2.2.2.1, h.2.2.2.2.2.1⟩
+example : 17734 * 10 ^ 10 ≤ 177347 * 10 ^ 9 ∧ 177347 * 10 ^ 9 < (17734 + 1) * 10 ^ 10 :=
+  value_floor (p := 177347) (d := 10) (t := 5) (q := 9) (r := ⟨17734, 6⟩) (by decide)
+example : toUnitPrice ⟨17734, 6⟩ * 10 ^ (10 + 5) ≤ 177347 * 10 ^ 20 ∧
+    177347 * 10 ^ 20 < (toUnitPrice ⟨17734, 6⟩ + 10 ^ 6) * 10 ^ (10 + 5) :=
+  unit_price_le_exact (p := 177347) (d := 10) (t := 5) (q := 9) (r := ⟨17734, 6⟩) (by decide)
+-- `toUnitPrice_fits` at the extreme corner (largest value, largest multiplier)
+example : toUnitPrice ⟨2 ^ 32 - 1, 20⟩ < 2 ^ 128 := toUnitPrice_fits (r := ⟨2 ^ 32 - 1, 20⟩) (by decide) (by decide)
+-- `withUnitPrice_floor` (no `false` instance existed), `withUnitPrice_ceil`, both truncating
+example : withUnitPrice ⟨0, 8⟩ 123456789012 false = some ⟨1234, 8⟩ := by decide
+example : toUnitPrice ⟨1234, 8⟩ ≤ 123456789012 ∧ 123456789012 < toUnitPrice ⟨1234, 8⟩ + 10 ^ 8 :=
+  have h := withUnitPrice_floor (r := ⟨0, 8⟩) (r' := ⟨1234, 8⟩) (price := 123456789012) (by decide)
+  ⟨h.2.1, h.2.2.1⟩
+example : 123456789012 ≤ toUnitPrice ⟨1235, 8⟩ ∧ toUnitPrice ⟨1235, 8⟩ < 123456789012 + 10 ^ 8 :=
+  have h := withUnitPrice_ceil (r := ⟨0, 8⟩) (r' := ⟨1235, 8⟩) (price := 123456789012) (by decide)
+  ⟨h.2.1, h.2.2.1⟩
+-- `withUnitPrice_none_iff`: the failing side (value needs 33 bits) in both rounding modes
+example : withUnitPrice ⟨0, 2⟩ (2 ^ 32 * 100) false = none ∧ withUnitPrice ⟨0, 2⟩ (2 ^ 32 * 100 - 99) true = none ∧
+    withUnitPrice ⟨0, 2⟩ (2 ^ 32 * 100 - 100) true = some ⟨2 ^ 32 - 1, 2⟩ := by decide
+example : 2 ^ 32 ≤ (2 ^ 32 * 100) / 10 ^ 2 :=
+  (withUnitPrice_none_iff ⟨0, 2⟩ (2 ^ 32 * 100) false).1 (by decide)
+-- `withUnitPrice_roundtrip`
+example : withUnitPrice ⟨1235, 8⟩ (toUnitPrice ⟨1235, 8⟩) true = some ⟨1235, 8⟩ :=
+  withUnitPrice_roundtrip ⟨1235, 8⟩ true (by decide)
+-- `findDivisor_spec` / `convertToU128Storage_spec`: both branches, with a non-zero divisor
+example : findDivisorDecimals (2 ^ 140) = 4 ∧ convertToU128Storage (2 ^ 140) 3 = none ∧
+    convertToU128Storage (2 ^ 140) 18 = some (some (2 ^ 140 / 10 ^ 4, 14)) := by decide
+example : convertToU128Storage (2 ^ 140) 3 = none :=
+  (convertToU128Storage_spec (2 ^ 140) 3 (by decide)).1 (by decide)
+example : 2 ^ 140 / 10 ^ findDivisorDecimals (2 ^ 140) < 2 ^ 128 :=
+  (findDivisor_spec (2 ^ 140) (by decide)).2.1
+-- `pythValueToDecimal_spec`: the positive-exponent clause (only `e ≤ 0` was witnessed)
+example : pythValueToDecimal 5 2 0 1 = .ok ⟨5000, 19⟩ := by decide
+example : (5000 : Nat) = 5 * 10 ^ (2 : Int).toNat * 10 ^ 1 :=
+  (pythValueToDecimal_spec (value := 5) (t := 0) (q := 1) (e := 2) (r := ⟨5000, 19⟩) (by decide)).2.1 (by decide)
+-- `pyth_exponent_errors`: an exponent in `(-256, -20)` is a (conversion) error, `-256` is "too small"
+example : pythValueToDecimal 1 (-21) 0 0 = .error .converting ∧
+    pythValueToDecimal 1 (-256) 0 0 = .error .exponentTooSmall ∧
+    pythValueToDecimal 1 (-20) 0 0 = .ok ⟨0, 20⟩ := by decide
+
+/-- AUDIT (B6), stronger than `value_floor` alone: the conversion is **order preserving** — a
+higher feed price never converts to a lower stored value (same decimal settings), so rounding
+down cannot invert two prices. -/
+theorem value_monotone {p p' d t q : Nat} {r r' : Decimal} (hp : p ≤ p')
+    (h : tryFromPrice p d t q = .ok r) (h' : tryFromPrice p' d t q = .ok r') :
+    r.value ≤ r'.value ∧ r.mult = r'.mult ∧ toUnitPrice r ≤ toUnitPrice r' := by
+  obtain ⟨_, _, _, _, hv, hm, _⟩ := tryFromPrice_spec h
+  obtain ⟨_, _, _, _, hv', hm', _⟩ := tryFromPrice_spec h'
+  have hle : r.value ≤ r'.value := by
+    rw [hv, hv']; unfold exactValue
+    exact Nat.div_le_div_right (Nat.mul_le_mul_right _ hp)
+  refine ⟨hle, by rw [hm, hm'], ?_⟩
+  unfold toUnitPrice
+  rw [hm, hm']
+  exact Nat.mul_le_mul_right _ hle
+example : (17734 : Nat) ≤ 17735 ∧ (6 : Nat) = 6 ∧ toUnitPrice ⟨17734, 6⟩ ≤ toUnitPrice ⟨17735, 6⟩ :=
+  value_monotone (p := 177347) (p' := 177350) (d := 10) (t := 5) (q := 9) (r := ⟨17734, 6⟩) (r' := ⟨17735, 6⟩)
+    (by decide) (by decide) (by decide)
+
+/-- AUDIT (B6): a price whose larger neighbour converts also converts (no overflow "hole" below a
+representable price). -/
+theorem ok_downward_closed {p p' d t q : Nat} {r' : Decimal} (hp : p ≤ p')
+    (h' : tryFromPrice p' d t q = .ok r') : ∃ r, tryFromPrice p d t q = .ok r := by
+  obtain ⟨hd, ht, hq, htq, hv', _, hlt⟩ := tryFromPrice_spec h'
+  rw [tryFromPrice_eq hd ht hq htq]
+  have : exactValue p d q ≤ exactValue p' d q := by
+    unfold exactValue; exact Nat.div_le_div_right (Nat.mul_le_mul_right _ hp)
+  rw [if_pos (by omega)]
+  exact ⟨_, rfl⟩
+example : ∃ r, tryFromPrice 177347 10 5 9 = .ok r :=
+  ok_downward_closed (p' := 177350) (r' := ⟨17735, 6⟩) (by decide) (by decide)
+
 end Gmx.C26
